@@ -9,9 +9,11 @@
     operation is read as the real operation.  The logarithm is eliminated: the rounded exponent
     `r` of `v` is characterised by `2^(2r-1) ≤ v² < 2^(2r+1)` ("rnd") resp. `2^r ≤ v < 2^(r+1)`
     ("floor").  Because the real code evaluates `round(log(v)/log 2)` in float32, its decision
-    can differ from the exact one close to a breakpoint; `RawAdm` is the relational form with a
-    relative band `beta` around every breakpoint (device 3 of DESIGN §3.2): inside the band both
-    neighbouring exponents are admissible, outside it the exponent is determined.
+    can differ from the exact one close to a breakpoint sqrt(2)·2^k; `RndAdm` is the relational
+    form with a relative band `beta` around every such breakpoint (device 3 of DESIGN §3.2):
+    inside the band both neighbouring exponents are admissible, outside it the exponent is
+    determined.  "floor" mode (after fix 40deb9c) rounds first and then steps down iff
+    `2^round > x`, an exact comparison: `RawAdm` composes the two, and the result is unique.
   * float32 layer (`quantF`): the same computation followed by the float32 effects that are NOT
     benign: denormals-are-zero on the input, `pow(2, e)` underflow/overflow, and the
     straight-through expression `x + (-x + xq)` evaluated with two float32 roundings and
@@ -63,36 +65,48 @@ def xFilter (c : Cfg) (xabs : Rat) : Rat :=
   | some m => if m ≤ a then m else a
   | none => a
 
-/-- exact value of `round(log2 x_input)` / `floor(log2 x_input)` (`x_input = sqrt v` when quad) -/
+/-- the quantity that is compared with powers of two by the rounded logarithm
+    (`x_input² = v` under quadratic approximation, `v²` otherwise) -/
+def key (c : Cfg) (v : Rat) : Rat := if c.quad then v else v * v
+
+/-- exact value of `round(log2 x_input)` (`x_input = sqrt v` when quad) -/
+def rndExact (c : Cfg) (v : Rat) : Int := (floorLog2Rat (key c v) + 1) / 2
+
+/-- exact value of the rounded logarithm the code ends up with: `round(log2 x_input)` in "rnd"
+    mode, `floor(log2 x_input)` in "floor" mode -/
 def rawExp (c : Cfg) (v : Rat) : Int :=
   if c.floorMode then
     (if c.quad then floorLog2Rat v / 2 else floorLog2Rat v)
-  else
-    (floorLog2Rat (if c.quad then v else v * v) + 1) / 2
+  else rndExact c v
 
-/-- the quantity that is compared with powers of two -/
-def key (c : Cfg) (v : Rat) : Rat := if c.quad then v else if c.floorMode then v else v * v
+/-- lower / upper bound on `key c v` for `r` to be an admissible float evaluation of
+    `round(log(x_input)/log 2)`: the exact interval `[2^(2r-1), 2^(2r+1)]` widened by `beta` -/
+def bandLo (_c : Cfg) (r : Int) : Rat := pow2 (2 * r - 1) * ((1 - beta) * (1 - beta))
+def bandHi (_c : Cfg) (r : Int) : Rat := pow2 (2 * r + 1) * ((1 + beta) * (1 + beta))
 
-/-- lower / upper bound on `key c v` for exponent `r` to be an admissible rounding of `v` -/
-def bandLo (c : Cfg) (r : Int) : Rat :=
-  if c.floorMode then
-    (if c.quad then pow2 (2 * r) * ((1 - beta) * (1 - beta)) else pow2 r * (1 - beta))
-  else pow2 (2 * r - 1) * ((1 - beta) * (1 - beta))
-def bandHi (c : Cfg) (r : Int) : Rat :=
-  if c.floorMode then
-    (if c.quad then pow2 (2 * r + 2) * ((1 + beta) * (1 + beta)) else pow2 (r + 1) * (1 + beta))
-  else pow2 (2 * r + 1) * ((1 + beta) * (1 + beta))
+/-- `r` is an admissible float evaluation of `tf.round(log(x_input)/log 2)` -/
+def RndAdm (c : Cfg) (v : Rat) (r : Int) : Prop := bandLo c r ≤ key c v ∧ key c v ≤ bandHi c r
 
-/-- `r` is an admissible float evaluation of the rounded logarithm of `v` -/
-def RawAdm (c : Cfg) (v : Rat) (r : Int) : Prop := bandLo c r ≤ key c v ∧ key c v ≤ bandHi c r
+instance (c : Cfg) (v : Rat) (r : Int) : Decidable (RndAdm c v r) := by
+  unfold RndAdm; exact inferInstance
 
-instance (c : Cfg) (v : Rat) (r : Int) : Decidable (RawAdm c v r) := by
-  unfold RawAdm; exact inferInstance
+/-- "floor" mode after fix 40deb9c: `x_floor = where(pow(2.0, x_rnd) > x_input, x_rnd - 1, x_rnd)`.
+    `pow(2.0, integer)` and the comparison are exact in float32 (`x_input = sqrt v` under quad is
+    read exactly: `2^x_rnd > sqrt v ⇔ 2^(2 x_rnd) > v`). -/
+def stepDown (c : Cfg) (v : Rat) (rn : Int) : Int :=
+  if v < (if c.quad then pow2 (2 * rn) else pow2 rn) then rn - 1 else rn
 
-/-- the admissible exponents, for the driver (at most two of the three candidates pass) -/
+/-- `r` is a value the code can end up with as rounded logarithm of `v`: in "rnd" mode any
+    admissible rounding; in "floor" mode any admissible rounding followed by the exact step-down
+    test (which makes the result unique, `rawAdm_floor_unique`). -/
+def RawAdm (c : Cfg) (v : Rat) (r : Int) : Prop :=
+  if c.floorMode then ∃ rn : Int, RndAdm c v rn ∧ r = stepDown c v rn else RndAdm c v r
+
+/-- the admissible results, for the driver -/
 def admExps (c : Cfg) (v : Rat) : List Int :=
-  let e := rawExp c v
-  [e - 1, e, e + 1].filter fun r => decide (RawAdm c v r)
+  let e := rndExact c v
+  let rns := [e - 1, e, e + 1].filter fun r => decide (RndAdm c v r)
+  if c.floorMode then (rns.map (stepDown c v)).eraseDups else rns
 
 /-- `_clip_power_of_two`, given the rounded logarithm `r` of `x_filter` -/
 def clipExpWith (c : Cfg) (xabs : Rat) (r : Int) : Int :=
@@ -140,12 +154,10 @@ def qmax (c : Cfg) : Rat :=
   | some m => rmax 1 m
   | none => rmax 1 (pow2 c.maxExp)
 
-/-- `min()`: `-max()` for quantized_po2; the relu variant's own formula -/
+/-- `min()`: `-max()` for quantized_po2; the relu variant: smallest code without a leaky slope,
+    `-max()` with one (fix 06b857d) -/
 def qmin (c : Cfg) : Rat :=
-  if c.relu then
-    (if c.negSlope = 0 then pow2 c.minExp
-     else if 0 < c.bits - 1 then rmin (pow2 c.minExp) (-(c.negSlope * pow2 ((c.bits - 1 : Nat) : Int)))
-     else pow2 c.minExp)
+  if c.relu then (if c.negSlope = 0 then pow2 c.minExp else - qmax c)
   else - qmax c
 
 /-! ### float32 layer -/
